@@ -58,20 +58,21 @@ def _budgeted(self, notsorted_list, predecessors):
 
 G.DiGraph._sorting = _budgeted
 
-def _history(n, ops, obs, use_copy, pre_edges=()):
-    """Run ops on a real DiGraph, mirrored on a reference state; returns error text or None."""
+def _history(n, ops, obs, use_copy, pre_edges=(), early=False):
+    """Run ops on a real DiGraph, mirrored on a reference state; returns error text or None.
+    early: the order is also observed (hence maintained incrementally) from the first operation of the set-up phase on."""
     try:
-        return _history_inner(n, ops, obs, use_copy, pre_edges)
+        return _history_inner(n, ops, obs, use_copy, pre_edges, early)
     except _Budget as e:
         return "history %s (after edges %s): %s" % (T.real(list(ops)), list(pre_edges), e)
 
-def _history_inner(n, ops, obs, use_copy, pre_edges=()):
+def _history_inner(n, ops, obs, use_copy, pre_edges=(), early=False):
     _CALLS[0] = 0
     nodes = [Nd("n%d" % i) for i in range(n)]
     g = G.DiGraph(name="g")
     if pre_edges:
         ops = [(0, i, 0) for i in range(n)] + [(1, a, b) for a, b in pre_edges] + list(ops)
-        obs = obs << (n + len(pre_edges)) | (1 << (n + len(pre_edges) - 1))
+        obs = obs << (n + len(pre_edges)) | (1 << (n + len(pre_edges) - 1)) | (1 if early else 0)
     present, wip, edges, log = set(), set(), set(), []
     t = -1
     ops = list(ops)
@@ -88,7 +89,7 @@ def _history_inner(n, ops, obs, use_copy, pre_edges=()):
                 break
             k, i, j = valid[op[0] % len(valid)]
         else:
-            k, i, j = op
+            k, i, j = op[0], op[1], op[2]
         a, b = nodes[i], nodes[j]
         if k == 0:
             if a.name in present or a.name in wip:
@@ -100,6 +101,15 @@ def _history_inner(n, ops, obs, use_copy, pre_edges=()):
             if _reach(edges, b.name, a.name):
                 continue
             g.add_edges((a, b)); edges.add((a.name, b.name)); log.append("add_edges(%s,%s)" % (a, b))
+        elif k == 6:
+            # two edges added in one call
+            c, d = nodes[op[3]], nodes[op[4]]
+            e1, e2 = (a.name, b.name), (c.name, d.name)
+            if e1 == e2 or i == j or op[3] == op[4] or not all(x in present for x in e1 + e2) or e1 in edges or e2 in edges:
+                continue
+            if _reach(edges, b.name, a.name) or _reach(edges | {e1}, d.name, c.name):
+                continue
+            g.add_edges([(a, b), (c, d)]); edges |= {e1, e2}; log.append("add_edges([(%s,%s), (%s,%s)])" % (a, b, c, d))
         elif k == 2:
             if a.name not in present or any(v == a.name for (u, v) in edges):
                 continue
@@ -188,6 +198,24 @@ def build(tier, seed, exclude):
             T.reach()
             return T.fail(err) if err else True
         """, timeout=to)
+    # edges added to an already sorted graph (one edge or two edges per call): chains and generated DAGs, symbolic end points
+    edags = [[(0, 1), (1, 2)], [(0, 1), (1, 2), (2, 3)], [(0, 1), (2, 3)], [(0, 1), (0, 2)], []] + [rand_dag(4) for _ in range(3 if quick else 10)] + \
+        [rand_dag(5) for _ in range(2 if quick else 10)]
+    for d, edges in enumerate(edags):
+        k = max(4, 1 + max([0] + [max(a, b) for a, b in edges]))
+        if not edges or d < 5:
+            k = 5 if d == 1 else 4
+        for form, params, ops in (
+                ("one", "i0: int, j0: int, early: bool", "[(1, i0, j0)]"),
+                ("pair", "i0: int, j0: int, p0: int, q0: int, early: bool", "[(6, i0, j0, p0, q0)]"),
+                ("seq", "i0: int, j0: int, i1: int, j1: int, early: bool", "[(1, i0, j0), (1, i1, j1)]")):
+            names = [v.split(":")[0] for v in params.split(", ") if "int" in v]
+            pre = [" and ".join(f"0 <= {v} < {k}" for v in names)]
+            g.cond(f"h_edges_sorted{d:02d}_{form}", params, pre, f"""
+                err = _history({k}, {ops}, 3, False, pre_edges={edges!r}, early=early)
+                T.reach()
+                return T.fail(err) if err else True
+            """, timeout=to)
     # fully symbolic kinds (search)
     Ls = 5
     params = ", ".join(f"k{t}: int, i{t}: int, j{t}: int" for t in range(Ls)) + ", obs: int"
